@@ -389,4 +389,32 @@ theorem tree_exit_kinds_match_source :
     split <;> (try split) <;> rfl
 
 
+/-! ### the block source's subscriber registry (`BlockHistoryTracker`, tools/simulator/simulate/chain/history.go) -/
+
+/-- **The lock scope `Hub.step true` stands for, read off the current source.**  Of the two marked effects of
+`broadcast`'s body — `ht.mu.RUnlock()` (mark 1) and `ht.mu.RLock()` (mark 2) — the one reached first is the `RLock`,
+and NO statement of the body is an `RUnlock`: the release is the deferred call, which runs when the function returns,
+i.e. after the last send.  A body that releases the lock by a statement of its own (to send afterwards) adds a
+marked exit with mark 1, and this theorem no longer checks. -/
+theorem broadcast_lock_scope_matches_source :
+    Gen.Src.c20BroadcastTree = 1 ∧ Gen.Src.c20BroadcastTreeMark 1 = 2 ∧ Gen.Src.c20BroadcastTreeKind 1 = 4 ∧
+    (∀ e, Gen.Src.c20BroadcastTreeMark e ≠ 1) := by
+  refine ⟨rfl, rfl, rfl, ?_⟩
+  intro e
+  unfold Gen.Src.c20BroadcastTreeMark
+  split <;> decide
+
+/-- `Unsubscribe`: a known id has its channel closed (marked effect `close(chOpen)`, followed by the delete); an unknown
+id changes nothing and `nil` is returned — `Hub.step`'s `unsub` (here without a broadcast under way). -/
+theorem unsubscribe_tree_matches_source (h : Hub) (id : Nat) (hp : h.pending = []) (locked : Bool) :
+    (h.step locked (.unsub id)).chans =
+      (if Gen.Src.c20UnsubscribeTree (decide (id ∈ h.chans)) = 1 then h.chans.erase id else h.chans) ∧
+    Gen.Src.c20UnsubscribeTreeKind 1 = 4 ∧ Gen.Src.c20UnsubscribeTreeMark 1 = 1 ∧
+    Gen.Src.c20UnsubscribeTreeKind 2 = 1 ∧ Gen.Src.c20UnsubscribeTreeNil1 2 = true := by
+  refine ⟨?_, rfl, rfl, rfl, rfl⟩
+  by_cases hm : id ∈ h.chans
+  · simp [Hub.step, hp, Gen.Src.c20UnsubscribeTree, hm]
+  · simp [Hub.step, hp, Gen.Src.c20UnsubscribeTree, hm, List.erase_of_not_mem hm]
+
+
 end AutoVerif.C20
